@@ -100,7 +100,9 @@ impl TransportVisitor for V {
     fn visit<T: Transport + 'static>(self, t: T, w: &DWorld) -> Out {
         let mut viols = vec![];
         let kind = w.kind;
-        let co = CoDevice::new(w.dev.clone(), cosim::zero_responder(kind));
+        // An honest device (success answers): otherwise drivers whose success value is not zero
+        // (sound, GPU) would never get past their first request and their other queues stay unused.
+        let co = CoDevice::new(w.dev.clone(), cosim::honest_responder(kind));
         co.borrow_mut().spin_horizon = 16;
         cosim::install(&co);
         let r = crate::util::catch(|| construct(kind, t));
@@ -195,8 +197,16 @@ fn post_init<T: Transport>(d: &mut AnyDriver<T>, accepted: u64, v: &mut Vec<(Str
                 _ => {}
             }
             let _ = g.resolution();
+            // Control queue (several commands) and cursor queue.
+            let _ = g.setup_framebuffer().map(|fb| fb.len());
+            let _ = g.flush();
+            let _ = g.setup_cursor(&vec![0u8; 64 * 64 * 4], 1, 2, 3, 4);
+            let _ = g.move_cursor(5, 6);
         }
-        AnyDriver::Input(_) => {}
+        AnyDriver::Input(i) => {
+            let _ = i.pop_pending_event();
+            let _ = i.ack_interrupt();
+        }
         AnyDriver::NetRaw(n) => {
             let _ = n.send(&[1, 2, 3, 4]);
             let _ = n.send(&[]);
@@ -219,13 +229,32 @@ fn post_init<T: Transport>(d: &mut AnyDriver<T>, accepted: u64, v: &mut Vec<(Str
         }
         AnyDriver::Rtc(r) => {
             let _ = r.num_clocks();
+            let _ = r.clock_cap(0);
+            let _ = r.read(0);
         }
         AnyDriver::Socket(s) => {
             use virtio_drivers::device::socket::{ConnectionInfo, VsockAddr};
             let ci = ConnectionInfo::new(VsockAddr { cid: 2, port: 80 }, 1234);
             let _ = s.connect(&ci);
+            let mut ci2 = ci.clone();
+            let _ = s.send(&[1, 2, 3], &mut ci2);
+            let _ = s.poll(|e, _| Ok(Some(e)));
         }
-        AnyDriver::Sound(_) => {}
+        AnyDriver::Sound(s) => {
+            use virtio_drivers::device::sound::{PcmFeatures, PcmFormat, PcmRate};
+            // Control queue (information queries and stream commands), then the transmit queue in
+            // both the blocking (stack buffers, three-part chains) and non-blocking form.
+            let _ = s.output_streams();
+            let _ = s.pcm_set_params(0, 8, 4, PcmFeatures::empty(), 1, PcmFormat::U8, PcmRate::Rate8000);
+            let _ = s.pcm_prepare(0);
+            let _ = s.pcm_start(0);
+            if let Ok(tok) = s.pcm_xfer_nb(0, &[1, 2, 3, 4]) {
+                let _ = s.pcm_xfer_ok(tok);
+            }
+            let _ = s.pcm_xfer(0, &[1, 2, 3, 4, 5, 6, 7, 8, 9]);
+            let _ = s.latest_notification();
+            let _ = s.pcm_stop(0);
+        }
         AnyDriver::P9(p) => {
             let mut resp = [0u8; 16];
             let _ = p.request(&[7, 0, 0, 0, 100, 0, 0], &mut resp);
